@@ -16,7 +16,7 @@ import (
 	"verif/internal/lib"
 )
 
-const rule = "domain A (exhaustive): every exported named type of every package of /repo, found by scanning the sources at check time (generated file zz_types_gen_test.go), x every exported argument-free method of its pointer method set, on the zero value. domain B (generated): well-formed model encodings for each of the 43 parser entry points x every truncation point (all cuts up to 700 bytes, else a fixed stride) and 1-2 structure-aware mutations; whenever the parser rejects but hands back a value, the same methods are called on it. Oracle: no panic; Verify()/VerifySignature() never report success on such a value. Non-trivial: (type, method) pair invoked / rejected parse that returned a non-nil value with >= 1 method; distinct by pair name or (entry, input)."
+const rule = "domain A (exhaustive): every exported named type of every package of /repo, found by scanning the sources at check time (generated file zz_types_gen_test.go), x every exported argument-free method of its pointer method set, on the zero value. domain B (generated): well-formed model encodings for each of the 43 parser entry points x every truncation point (all cuts up to 700 bytes, else a fixed stride) and 1-2 structure-aware mutations; plus complete, genuinely signed encodings that break one documented validation rule (zero expires, inner data below the minimum, reserved flag bits, no keys / entries / addresses, published = 0); whenever the parser rejects but hands back a value, the same methods are called on it. Oracle: no panic; Verify()/VerifySignature() never report success on such a value. Non-trivial: (type, method) pair invoked / rejected parse that returned a non-nil value with >= 1 method; distinct by pair name or (entry, input)."
 
 func TestMain(m *testing.M) { ev.Main(m, "C20", rule) }
 
@@ -163,8 +163,78 @@ func checkPartial(c PartialCase, r *ev.Rec) error {
 
 var weighted = lib.WeightedNames()
 
+// signedInvalid: a complete, genuinely signed encoding that breaks one rule the
+// structure's validator documents (zero expires offset, inner data below the minimum,
+// reserved flag bit, no keys, no entries, no addresses, published = 0). A parser that
+// validates after parsing returns an error for these; what it returns along with the
+// error must not verify.
+func signedInvalid(t *rapid.T) PartialCase {
+	switch rapid.IntRange(0, 3).Draw(t, "sikind") {
+	case 0:
+		s := gen.ELSG(t, "els", []int{7, 11})
+		if s.InnerLen > 3000 {
+			s.InnerLen = 100
+		}
+		rule := rapid.SampledFrom([]string{"expires = 0", "inner data of 60 bytes", "inner data of 0 bytes", "reserved flag bit 3", "reserved flag bit 15"}).Draw(t, "rule")
+		switch rule {
+		case "expires = 0":
+			s.Expires = 0
+		case "inner data of 60 bytes":
+			s.InnerLen = 60
+		case "inner data of 0 bytes":
+			s.InnerLen = 0
+		case "reserved flag bit 3":
+			s.Flags |= 8
+		default:
+			s.Flags |= 0x8000
+		}
+		m, _, _ := s.Build()
+		return PartialCase{Entry: "encrypted_leaseset.ReadEncryptedLeaseSet", Hex: ev.H(m.Encode()), Cut: -1, How: "signed and complete, violates: " + rule}
+	case 1:
+		s := gen.LS2G(t, "ls2", []int{7, 11, 0})
+		rule := rapid.SampledFrom([]string{"reserved flag bit 3", "reserved flag bit 15", "no encryption keys", "expires = 0"}).Draw(t, "rule")
+		switch rule {
+		case "reserved flag bit 3":
+			s.Header.Flags |= 8
+		case "reserved flag bit 15":
+			s.Header.Flags |= 0x8000
+		case "no encryption keys":
+			s.Keys = nil
+		default:
+			s.Header.Expires = 0
+		}
+		m, _, _ := s.Build()
+		return PartialCase{Entry: "lease_set2.ReadLeaseSet2", Hex: ev.H(m.Encode()), Cut: -1, How: "signed and complete, violates: " + rule}
+	case 2:
+		s := gen.MetaG(t, "meta", []int{7, 11, 0})
+		rule := rapid.SampledFrom([]string{"reserved flag bit 3", "no entries", "expires = 0"}).Draw(t, "rule")
+		switch rule {
+		case "reserved flag bit 3":
+			s.Header.Flags |= 8
+		case "no entries":
+			s.Entries = nil
+		default:
+			s.Header.Expires = 0
+		}
+		m, _, _ := s.Build()
+		return PartialCase{Entry: "meta_leaseset.ReadMetaLeaseSet", Hex: ev.H(m.Encode()), Cut: -1, How: "signed and complete, violates: " + rule}
+	}
+	s := gen.RouterInfoG(t, "ri", []int{7})
+	rule := rapid.SampledFrom([]string{"no addresses", "published = 0"}).Draw(t, "rule")
+	if rule == "no addresses" {
+		s.Addrs = nil
+	} else {
+		s.Published = 0
+	}
+	m, _ := s.Build()
+	return PartialCase{Entry: "router_info.ReadRouterInfo", Hex: ev.H(m.Encode()), Cut: -1, How: "signed and complete, violates: " + rule}
+}
+
 var propPartial = &ev.Prop[PartialCase]{Sub: "partial", Quick: 4000, Thorough: 200000,
 	Gen: func(t *rapid.T) PartialCase {
+		if rapid.IntRange(0, 5).Draw(t, "signedinvalid") == 0 {
+			return signedInvalid(t)
+		}
 		e := rapid.SampledFrom(weighted).Draw(t, "entry")
 		b, typ, hot := gen.ValidFor(t, e)
 		how := "truncations"
